@@ -25,6 +25,9 @@ var ghostFuns = map[string]func(ev *Evaluator, args []*Term) Val{}
 var ghostSorts = map[string]Sort{
 	"pend": ArrSort(SBytes, ArrSort(SStr, SInt)), "stk": SInt,
 	"UT": ArrSort(SStr, SInt), "UTA": ArrSort(SBytes, ArrSort(SStr, SInt)),
+	// C13 ghosts: settled[kDel(..)] = the position's reward indices equal the validator's current ones;
+	// vsettled[val] = nothing is pending in x/distribution for the module's delegation to val
+	"settled": ArrSort(SBytes, SBool), "vsettled": ArrSort(SBytes, SBool),
 }
 
 const (
@@ -180,6 +183,12 @@ func init() {
 	ghostFuns["UTA"] = func(ev *Evaluator, a []*Term) Val {
 		ev.E.declBucketSums(ev.M)
 		return Select(Select(ev.M.GetG("UTA", ghostSorts["UTA"]), a[0]), a[1])
+	}
+	ghostFuns["settled"] = func(ev *Evaluator, a []*Term) Val {
+		return Select(ev.M.GetG("settled", ghostSorts["settled"]), a[0])
+	}
+	ghostFuns["vsettled"] = func(ev *Evaluator, a []*Term) Val {
+		return Select(ev.M.GetG("vsettled", ghostSorts["vsettled"]), a[0])
 	}
 	ghostFuns["bs"] = func(ev *Evaluator, a []*Term) Val {
 		ev.E.declBucketSums(ev.M)
